@@ -4,14 +4,12 @@
  *   h_parse_integer  secp256k1_der_parse_integer      (static helper, real code vs spec_der_int; proves PI_POST)
  *   h_parse_der      secp256k1_ecdsa_signature_parse_der (API, every pointer NULL or object); the two calls of
  *                    secp256k1_der_parse_integer are replaced by the contract proved in h_parse_integer
- *   h_spec_compose   spec_der_sig = SEQUENCE framing over spec_der_int (the reading of h_parse_der's obligations)
  *   h_serialize_der  secp256k1_ecdsa_signature_serialize_der (API)
  *   h_rt_ser_parse   parse_der(serialize_der(r,s)) = (r,s), real code both ways
  *   h_canon_int      X.690 lemma: an accepted in-range INTEGER element is the encoding of its value */
 #include "assumed.h"
 #include "spec_der.h"
 #include "der_contracts.h"
-#include "c03_small_tables.h"
 #include "src/secp256k1.c"
 #include "post.h"
 
@@ -43,7 +41,7 @@ void h_read_len(void) {
 
 void h_parse_integer(void) {
     INPUT(size_t, avail); INPUT(secp256k1_scalar, r0); INPUT(size_t, j);
-    unsigned char *buf; const unsigned char *p; int ret; spec_int I; secp256k1_scalar r = r0; unsigned char rb[32];
+    unsigned char *buf; const unsigned char *p; int ret; spec_int I; secp256k1_scalar r = r0;
     __CPROVER_assume(avail <= MAXLEN && j < 32);
     g_j = j;
     INPUT_BUF(b, buf, avail, WIT);
@@ -51,15 +49,11 @@ void h_parse_integer(void) {
     ret = secp256k1_der_parse_integer(&r, &p, buf + avail);
     WITNESS_BUF(b, buf, avail, WIT);
     I = spec_der_int(buf, avail);
-    __CPROVER_assert(ret == 0 || ret == 1, "C03 der.parse_integer: returns 0 or 1");
-    __CPROVER_assert(ret == I.ok, "C03 der.parse_integer: accepts exactly the well-formed DER INTEGER elements (tag 0x02, DER length, >= 1 content octet, no excessive 0x00 or 0xFF padding, not truncated)");
-    if (ret) {
-        spec_scalar_be(&r, rb);
-        __CPROVER_assert(p == buf + I.total, "C03 der.parse_integer: the read pointer advances by exactly the element length");
-        __CPROVER_assert(rb[j] == spec_der_int_vbyte(buf, I, j), "C03 der.parse_integer: scalar equals the encoded value if 0 <= value < n, and is zero for negative, oversize or >= n values");
-        __CPROVER_assert(scalar_ok(&r), "C03 der.parse_integer: result scalar is reduced");
-    }
-    __CPROVER_assert(PI_POST(PEQ_PLAIN, ret, &r, p, (const unsigned char *)buf, avail, I), "C03 der.parse_integer: the contract PI_POST used by der.sig_parse holds for the real function");
+    /* the four parts of the contract PI_POST (der_contracts.h) that der.sig_parse relies on */
+    __CPROVER_assert(PI_ACCEPT(ret, I), "C03 der.parse_integer: accepts exactly the well-formed DER INTEGER elements (tag 0x02, DER length, >= 1 content octet, no excessive 0x00 or 0xFF padding, not truncated)");
+    __CPROVER_assert(PI_ADVANCE(PEQ_PLAIN, ret, p, (const unsigned char *)buf, avail, I), "C03 der.parse_integer: the read pointer advances by exactly the element length, inside the buffer");
+    __CPROVER_assert(PI_VALUE(ret, &r, (const unsigned char *)buf, I), "C03 der.parse_integer: scalar equals the encoded value if 0 <= value < n");
+    __CPROVER_assert(PI_REDUCED(ret, &r, I), "C03 der.parse_integer: result scalar is reduced, and zero for negative, oversize or >= n values");
     if (ret && I.inrange && I.total == 35 && buf[3] != 0) REACH("parse_integer accepts a padded 32-byte in-range value");
     if (ret && !I.inrange && I.total > 40) REACH("parse_integer accepts an oversize integer as zero");
     if (!ret && avail > 4 && buf[0] == 0x02 && buf[1] == 2) REACH("parse_integer rejects a padding violation");
@@ -77,10 +71,18 @@ void h_parse_der(void) {
     verif_ctx_init(&ctx);
     ret = secp256k1_ecdsa_signature_parse_der(&ctx, use_sig ? &sig : NULL, use_in ? buf : NULL, len);
     WITNESS_BUF(b, buf, len, WIT);
-    L.ok = 0; L.hdr = 0; L.val = 0;
-    if (len >= 1) L = spec_der_len(buf + 1, len - 1);
     /* X.690 8.9.1 + 10.1: identifier 0x30, DER length, contents are exactly the rest of the input */
-    framing = len >= 1 && buf[0] == 0x30 && L.ok && L.val == len - 1 - L.hdr;
+    framing = spec_sig_framing(buf, len, &L);
+#ifdef VERIF_NATIVE
+    /* native replay: nothing is replaced, so the call log is filled from the specification itself */
+    if (use_sig && use_in) {
+        spec_sig S = spec_der_sig(buf, len); unsigned char v[32]; size_t i;
+        if (framing) { g_pi_n = 1; g_pi_off0 = S.roff; g_pi_av0 = SPEC_SIG_RAVAIL(L); g_pi_I0 = S.R;
+            for (i = 0; i < 32; i++) v[i] = spec_der_sig_rbyte(buf, S, i); secp256k1_scalar_set_b32(&g_pi_v0, v, NULL); }
+        if (framing && S.R.ok) { g_pi_n = 2; g_pi_off1 = S.soff; g_pi_av1 = SPEC_SIG_SAVAIL(L, S.R); g_pi_I1 = S.S;
+            for (i = 0; i < 32; i++) v[i] = spec_der_sig_sbyte(buf, S, i); secp256k1_scalar_set_b32(&g_pi_v1, v, NULL); }
+    }
+#endif
     __CPROVER_assert(ret == 0 || ret == 1, "C03 der.sig_parse: returns 0 or 1");
     __CPROVER_assert(g_error == 0, "C03 der.sig_parse: error callback never invoked");
     if (!use_sig || !use_in) {
@@ -89,10 +91,10 @@ void h_parse_der(void) {
         __CPROVER_assert(g_illegal == 0, "C03 der.sig_parse: no callback for non-NULL arguments, whatever the bytes");
         __CPROVER_assert(g_pi_n <= 2, "C03 der.sig_parse: at most two INTEGER elements are read");
         if (framing) __CPROVER_assert(g_pi_n >= 1, "C03 der.sig_parse: a well-framed SEQUENCE has its first element read");
-        if (g_pi_n >= 1) __CPROVER_assert(framing && g_pi_off0 == 1 + L.hdr && g_pi_av0 == L.val, "C03 der.sig_parse: r is read at the start of the SEQUENCE contents, limited to the SEQUENCE contents, and only if the framing is strict DER filling the input");
+        if (g_pi_n >= 1) __CPROVER_assert(framing && g_pi_off0 == SPEC_SIG_ROFF(L) && g_pi_av0 == SPEC_SIG_RAVAIL(L), "C03 der.sig_parse: r is read at the start of the SEQUENCE contents, limited to the SEQUENCE contents, and only if the framing is strict DER filling the input");
         if (g_pi_n >= 1 && g_pi_I0.ok) __CPROVER_assert(g_pi_n == 2, "C03 der.sig_parse: after a well-formed r the second element is read");
-        if (g_pi_n == 2) __CPROVER_assert(g_pi_I0.ok && g_pi_off1 == g_pi_off0 + g_pi_I0.total && g_pi_av1 == g_pi_av0 - g_pi_I0.total, "C03 der.sig_parse: s is read directly after r, limited to the rest of the SEQUENCE contents");
-        spec_ok = framing && g_pi_n == 2 && g_pi_I0.ok && g_pi_I1.ok && g_pi_I0.total + g_pi_I1.total == L.val;
+        if (g_pi_n == 2) __CPROVER_assert(g_pi_I0.ok && g_pi_off1 == SPEC_SIG_SOFF(L, g_pi_I0) && g_pi_av1 == SPEC_SIG_SAVAIL(L, g_pi_I0), "C03 der.sig_parse: s is read directly after r, limited to the rest of the SEQUENCE contents");
+        spec_ok = g_pi_n == 2 && SPEC_SIG_OK(framing, L, g_pi_I0, g_pi_I1);
         __CPROVER_assert(ret == spec_ok, "C03 der.sig_parse: accepts exactly the strict-DER ECDSA-Sig-Value encodings that fill the input (no trailing bytes inside or after the sequence)");
         secp256k1_ecdsa_signature_load(&ctx, &r, &s, &sig);
         if (ret) __CPROVER_assert(SC_EQ(r, g_pi_v0) && SC_EQ(s, g_pi_v1), "C03 der.sig_parse: the signature object holds exactly the scalars of the first and second INTEGER (in-range integers are stored exactly)");
@@ -156,32 +158,10 @@ void h_rt_ser_parse(void) {
     if (outlen == 8) REACH("roundtrip with 8 bytes");
 }
 
-/* The obligations of h_parse_der, read with slot i := spec_der_int(buf + off_i, av_i), define spec_der_sig:
- * checked here on the specification alone (no code under test). */
-void h_spec_compose(void) {
-    INPUT(size_t, len);
-    unsigned char *buf; spec_sig S; spec_len L; spec_int I0, I1; int framing, ok;
-    __CPROVER_assume(len <= MAXLEN);
-    INPUT_BUF(b, buf, len, WIT);
-    S = spec_der_sig(buf, len);
-    WITNESS_BUF(b, buf, len, WIT);
-    L.ok = 0; L.hdr = 0; L.val = 0; I0.ok = 0; I0.total = 0; I0.inrange = 0; I1 = I0;
-    if (len >= 1) L = spec_der_len(buf + 1, len - 1);
-    framing = len >= 1 && buf[0] == 0x30 && L.ok && L.val == len - 1 - L.hdr;
-    if (framing) I0 = spec_der_int(buf + 1 + L.hdr, L.val);
-    if (framing && I0.ok) I1 = spec_der_int(buf + 1 + L.hdr + I0.total, L.val - I0.total);
-    ok = framing && I0.ok && I1.ok && I0.total + I1.total == L.val;
-    __CPROVER_assert(S.ok == ok, "C03 der.spec_compose: spec_der_sig accepts iff strict framing, two well-formed INTEGER elements, nothing after them");
-    if (ok) __CPROVER_assert(S.roff == 1 + L.hdr && S.soff == S.roff + I0.total && S.R.inrange == I0.inrange && S.S.inrange == I1.inrange && S.R.moff == I0.moff && S.R.ml == I0.ml && S.S.moff == I1.moff && S.S.ml == I1.ml,
-                             "C03 der.spec_compose: r and s of spec_der_sig are the first and second INTEGER");
-    if (ok && len > 200) REACH("spec accepts a long signature");
-    if (!ok && framing && I0.ok && I1.ok) REACH("spec rejects trailing bytes inside");
-}
-
 /* X.690 lemma on the specification alone: a DER INTEGER element that is accepted with 0 <= value < n is THE
  * encoding of its value (identifier 02, short length = minimal content length, contents = minimal two's
  * complement).  Together with der.sig_parse (stored scalars = values), der.serialize (output = encoding of
- * the stored scalars) and der.spec_compose this gives serialize(parse(b)) = b for every accepted b with both
+ * the stored scalars) and the definition of spec_der_sig this gives serialize(parse(b)) = b for every accepted b with both
  * integers in range: b = 30 len || enc(r) || enc(s) with nothing else (framing), and len < 128 is forced. */
 void h_canon_int(void) {
     INPUT(size_t, avail); INPUT(size_t, k);
